@@ -458,30 +458,43 @@ def negotiateTransceiver (typ : DType) (t : Transceiver) (m : MSec) (i : Nat) : 
 
 def matchesSec (m : MSec) (t : Transceiver) : Bool := t.kind == m.kind && (t.mid.isNone || t.mid == some m.mid)
 
+/-- `self.__seenMids.add(media.rtp.muxId)` -/
+def Pc.seeMid (pc : Pc) (mid : String) : Pc := { pc with seenMids := setAdd pc.seenMids mid }
+
+/-- "find transceiver … if transceiver is None: transceiver = self.__createTransceiver(recvonly, kind)" (907-916) -/
+def Pc.ensureTransceiver (pc : Pc) (m : MSec) : Pc :=
+  if pc.transceivers.any (matchesSec m) then pc else pc.createTransceiver .recvonly m.kind false
+
+/-- "if not self.__sctp: self.__createSctpTransport()" (968-969) -/
+def Pc.ensureSctp (pc : Pc) : Pc := if pc.sctp.isSome then pc else pc.createSctp
+
+/-- the audio / video branch of one iteration of "apply description" (917-965, 988-1004), on a connection that has a
+matching transceiver -/
+def applyRemoteMedia (typ : DType) (pc : Pc) (i : Nat) (m : MSec) : Outcome Pc :=
+  match pc.transceivers.find? (matchesSec m) with
+  | none => .crash "AttributeError"   -- unreachable: a matching transceiver was just created
+  | some t =>
+    match negotiateTransceiver typ t m i with
+    | .ok t' =>
+      match updFirst (matchesSec m) (fun _ => t') pc.transceivers with
+      | none => .crash "AttributeError"
+      | some ts => .ok ({ pc with transceivers := ts }.modTransport t.transport (remoteRoles typ m.setup))
+    | .valueError => .valueError
+    | .crash k => .crash k
+    | .hang => .hang
+
+/-- the application branch (970-986, 988-1004), on a connection that has an SCTP transport -/
+def applyRemoteApp (typ : DType) (pc : Pc) (i : Nat) (m : MSec) : Outcome Pc :=
+  match pc.sctp with
+  | none => .crash "AttributeError"     -- unreachable
+  | some s =>
+    .ok ({ pc with sctp := some { s with mid := some (s.mid.getD m.mid), remoteSet := true },
+                   sctpMline := if s.mid.isNone then some i else pc.sctpMline }.modTransport s.transport (remoteRoles typ m.setup))
+
 /-- one iteration of "apply description" (903-1004) -/
 def applyRemoteSec (typ : DType) (pc : Pc) (i : Nat) (m : MSec) : Outcome Pc :=
-  let pc := { pc with seenMids := setAdd pc.seenMids m.mid }
-  if m.kind.isMedia then
-    let pc := if pc.transceivers.any (matchesSec m) then pc else pc.createTransceiver .recvonly m.kind false
-    match pc.transceivers.find? (matchesSec m) with
-    | none => .crash "AttributeError"   -- unreachable: a matching transceiver was just created
-    | some t =>
-      match negotiateTransceiver typ t m i with
-      | .ok t' =>
-        match updFirst (matchesSec m) (fun _ => t') pc.transceivers with
-        | none => .crash "AttributeError"
-        | some ts => .ok ({ pc with transceivers := ts }.modTransport t.transport (remoteRoles typ m.setup))
-      | .valueError => .valueError
-      | .crash k => .crash k
-      | .hang => .hang
-  else
-    let pc := if pc.sctp.isSome then pc else pc.createSctp
-    match pc.sctp with
-    | none => .crash "AttributeError"     -- unreachable
-    | some s =>
-      let s' : SctpT := { s with mid := some (s.mid.getD m.mid), remoteSet := true }
-      let pc := { pc with sctp := some s', sctpMline := if s.mid.isNone then some i else pc.sctpMline }
-      .ok (pc.modTransport s.transport (remoteRoles typ m.setup))
+  if m.kind.isMedia then applyRemoteMedia typ ((pc.seeMid m.mid).ensureTransceiver m) i m
+  else applyRemoteApp typ (pc.seeMid m.mid).ensureSctp i m
 
 def applyRemote (typ : DType) : Pc → List MSec → Nat → Outcome Pc
   | pc, [], _ => .ok pc
